@@ -361,12 +361,27 @@ def framing(ctx, repo):
     efi = repo.method(cname, "_extract_packet_parts")
     pat = None
     flags = None
+
+    def from_call(n, first_is_pattern=True):
+        p_ = repo.try_fold(n.args[0], efi.mod) if n.args else None
+        rest = n.args[2:] if ast.unparse(n.func) != "re.compile" else n.args[1:]
+        fl = [ast.unparse(a) for a in rest] + [ast.unparse(k.value) for k in n.keywords if k.arg == "flags"]
+        return p_, fl
+
     for n in ast.walk(efi.node):
         if isinstance(n, ast.Call) and ast.unparse(n.func) in ("re.search", "re.match", "re.fullmatch"):
-            pat = repo.try_fold(n.args[0], efi.mod)
-            flags = [ast.unparse(a) for a in n.args[2:]] + [ast.unparse(k.value) for k in n.keywords if k.arg == "flags"]
+            pat, flags = from_call(n)
+        elif isinstance(n, ast.Call) and isinstance(n.func, ast.Attribute) and n.func.attr in ("search", "match", "fullmatch") and isinstance(n.func.value, ast.Name):
+            # precompiled pattern: a module-level (or local) NAME = re.compile(...)
+            src = efi.mod.consts.get(n.func.value.id)
+            if src is None:
+                for a in ast.walk(efi.node):
+                    if isinstance(a, ast.Assign) and ast.unparse(a.targets[0]) == n.func.value.id:
+                        src = a.value
+            if isinstance(src, ast.Call) and ast.unparse(src.func) == "re.compile":
+                pat, flags = from_call(src)
     if not isinstance(pat, bytes):
-        raise AnalysisError("framing regex is not a constant pattern")
+        raise AnalysisError("framing regex is not a constant pattern (idiom not recognised)")
     ctx.ob("R5", "regex::dotall", any("DOTALL" in f or f.endswith("re.S") for f in flags or []),
            "framing regex is compiled without re.DOTALL: payloads containing a newline byte do not match", efi.loc)
     import re._parser as sre
